@@ -433,7 +433,9 @@ def check_lwsp_block(ctx, rule="FIN-lwsp"):
 
   def build(spec, parent=None):
     kind, name, rest = spec
-    n = Node(kind, name, [], space=ws["DEFAULT"])
+    preserve = kind.endswith("+")       # "Span+": xml:space=preserve on that span
+    kind = kind.rstrip("+")
+    n = Node(kind, name, [], space=ws["PRESERVE"] if preserve or (parent is not None and parent.kind == "Span" and kind == "Text" and parent.fields.get("space") is ws["PRESERVE"]) else ws["DEFAULT"])
     n.parent = parent
     if kind == "Text":
       n.fields["text"] = rest
@@ -459,6 +461,10 @@ def check_lwsp_block(ctx, rule="FIN-lwsp"):
     ("nothing to do", ("P", "p", [("Span", "s1", [T("t1", "a b")])]), "p[span['a b']]"),
     ("only a span with an empty text node", ("P", "p", [("Span", "s1", [T("t1", "")])]), "p[]"),
     ("only white space", ("P", "p", [("Span", "s1", [T("t1", "  ")]), T("t2", "\n")]), "p[]"),
+    ("a preserved span ending in a tab before default white space", ("P", "p", [("Span+", "s1", [T("t1", "a\t")]), ("Span", "s2", [T("t2", " b")])]), "p[span['a\\t'], span['b']]"),
+    ("a preserved span ending in a line feed before default white space", ("P", "p", [("Span+", "s1", [T("t1", "a\n")]), ("Span", "s2", [T("t2", " b")])]), "p[span['a\\n'], span['b']]"),
+    ("a preserved span ending in a carriage return before default white space", ("P", "p", [("Span+", "s1", [T("t1", "a\r")]), ("Span", "s2", [T("t2", "  b")])]), "p[span['a\\r'], span['b']]"),
+    ("preserved white space is kept", ("P", "p", [("Span+", "s1", [T("t1", " a  b ")]), ("Span", "s2", [T("t2", "c")])]), "p[span[' a  b '], span['c']]"),
   ]
   methods = {
     "get_text": lambda n_: n_.fields.get("text"),
@@ -486,6 +492,8 @@ def check_lwsp_block(ctx, rule="FIN-lwsp"):
       else:
         raise
     got = show(root)
+    if want is None:
+      continue
     ctx.check(got == want, rule, key, ctx.where(f.module, g), f"interpreted: {got}",
               f"interpreted on {show(build(spec))} (xml:space=default), the white-space step leaves {got} instead of {want}")
     n += 1
